@@ -8,9 +8,10 @@
       length is checked (continuous: `len(colors) >= len(dom)`, segmented: `len(colors) > len(dom)`);
     * `color(value)`: `value < domain[0]` -> `colors[0]`; `value > domain[-1]` -> `colors[-1]`
       (the last *colour*, even when the domain is shorter than the colour list); then the first
-      interval `domain[c] <= value <= domain[c+1]` (closed on both sides, first match wins); the loop
-      runs over *all* domain entries, so when no interval matches (`len(domain) == 1`) the lookup
-      `domain[c+1]` raises IndexError;
+      interval `domain[c] <= value <= domain[c+1]` (closed on both sides, first match wins), searched
+      over `range(len(domain) - 1)`; when no interval matches (only possible for `len(domain) == 1`,
+      value on the single boundary) the last colour is returned
+      (fix "C15_single_boundary_color": the pinned loop read `domain[count + 1]` past the end);
     * `_cal_color`: `factor = (value - lo) / (hi - lo)`, `ZeroDivisionError` -> 0;
       channel = `round(factor * (max - min) + min)`.
 -/
@@ -80,7 +81,7 @@ def factor (lo hi v : Rat) : Rat := if hi - lo = 0 then 0 else (v - lo) / (hi - 
 def blendRGB (f : Rat) (a b : RGB) : RGB := ⟨blend f a.r b.r, blend f a.g b.g, blend f a.b b.b⟩
 
 /-- The interval search of `color`: first `c` (counted from `i`) with `d[c] <= v <= d[c+1]`;
-    `none` = the loop reached the last entry and `domain[count + 1]` raised IndexError. -/
+    `none` = the loop ended without a match. -/
 def findInterval (v : Rat) : List Rat → Nat → Option Nat
   | d :: d' :: rest, i => if d ≤ v ∧ v ≤ d' then some i else findInterval v (d' :: rest) (i + 1)
   | _, _ => none
@@ -93,7 +94,7 @@ def ColorRange.color (cr : ColorRange) (v : Rat) : Except Err RGB :=
     else if dl < v then getE cr.colors (cr.colors.length - 1)
     else
       match findInterval v cr.domain 0 with
-      | none => .error .index
+      | none => getE cr.colors (cr.colors.length - 1)
       | some c =>
         if cr.continuous then
           match cr.domain[c]?, cr.domain[c + 1]?, cr.colors[c]?, cr.colors[c + 1]? with
@@ -135,7 +136,7 @@ private def ex3 : List RGB := [⟨75, 107, 169⟩, ⟨245, 239, 103⟩, ⟨234, 
 #guard ((ColorRange.make ex3 [100, 2000] false).bind (·.color 2000)) = .ok ⟨245, 239, 103⟩
 #guard ((ColorRange.make ex3 [100, 2000] false).bind (·.color 2001)) = .ok ⟨234, 38, 0⟩
 #guard ((ColorRange.make ex3 [5, 5] true).bind (·.color 5)) = .ok ⟨75, 107, 169⟩
-#guard ((ColorRange.make ex3 [100] false).bind (·.color 100)) = .error .index
+#guard ((ColorRange.make ex3 [100] false).bind (·.color 100)) = .ok ⟨234, 38, 0⟩
 #guard (ColorRange.make ex3 [1, 2, 3, 4] true).map (·.domain) = .error .assert
 #guard (ColorRange.make ex3 [1, 2, 3] false).map (·.domain) = .error .assert
 #guard (ColorRange.make [⟨1, 2, 3⟩] [1, 2] true).map (·.domain) = .error .zero
